@@ -282,6 +282,13 @@ def plan_c04(pid, rng, quick):
         o = {"dict": d, "zstd": z, "hasOrder": True, "orderSpan": os_, "attrs16": a16, "attrs32": a32}
         if t is not None:
             o["thr"] = t
+        # the remaining public options: initial index width (not above the limit) and the statistics switches
+        lim = {"": 16, "none": 0, "8": 8, "16": 16, "32": 32, "64": 64}[d]
+        ok = [w for w in ("8", "16", "32", "64") if int(w) <= lim]
+        if ok and i % 3 == 0:
+            o["init"] = ok[(i // 3) % len(ok)]
+        if i % 4 == 1:
+            o["stats"] = ["ratio", "producer", "ratio,producer"][(i // 4) % 3]
         signal = ["traces", "logs", "metrics"][i % 3] if not quick else rng.choice(["traces", "traces", "logs", "metrics"])
         st = otap.rand_stream(rng, "opt/%s/%d" % (signal, i), signal, ["C04"], opts=o, nb=rng.choice([2, 3, 4]))
         plan.append(st)
@@ -445,6 +452,11 @@ def plan_c16(pid, rng, quick):
             for b in st["batches"]:
                 b["signal"] = rng.choice(["traces", "logs", "metrics"])
         st["nowire"] = True
+        # options whose state a careless refactoring would share between producers: statistics, uniform shapes
+        if i % 3 == 0:
+            st["opts"] = dict(st["opts"] or {}, stats=rng.choice(["ratio", "ratio,producer"]))
+        if i % 4 == 0:
+            st["batches"] = [uniform_batch(rng, 1 + i % 3) for _ in st["batches"]]
         plan.append(st)
     for i in range(8 if quick else 64):   # dictionary state machines running side by side
         signal = rng.choice(["traces", "logs", "metrics"])
